@@ -254,4 +254,35 @@ theorem PartsEquiv.perm {pts pts' : List Pt} {cs cs' : List (List Pt)} {as as' :
     simp only [singlesOf]
     exact ((hc.append (ha.flatMap_right _)).flatMap_right _).mem_iff
 
+/-! ### collections -/
+
+theorem partsList_cons (g : Geom) (gs : List Geom) : partsList (g :: gs) = (parts g).append (partsList gs) := by
+  simp [partsList]
+
+theorem append_swap_perm {α : Type} (a b r : List α) : (a ++ (b ++ r)).Perm (b ++ (a ++ r)) := by
+  rw [← List.append_assoc, ← List.append_assoc]
+  exact List.perm_append_comm.append_right r
+
+/-- the parts of a collection with its members in another order -/
+theorem partsList_perm {gs gs' : List Geom} (h : gs.Perm gs') :
+    (partsList gs).pts.Perm (partsList gs').pts ∧ (partsList gs).curves.Perm (partsList gs').curves ∧
+      (partsList gs).areas.Perm (partsList gs').areas := by
+  induction h with
+  | nil => exact ⟨List.Perm.refl _, List.Perm.refl _, List.Perm.refl _⟩
+  | cons g _ ih =>
+    simp only [partsList_cons, Parts.append]
+    exact ⟨ih.1.append_left _, ih.2.1.append_left _, ih.2.2.append_left _⟩
+  | swap a b l =>
+    simp only [partsList_cons, Parts.append]
+    exact ⟨append_swap_perm _ _ _, append_swap_perm _ _ _, append_swap_perm _ _ _⟩
+  | trans _ _ ih1 ih2 => exact ⟨ih1.1.trans ih2.1, ih1.2.1.trans ih2.2.1, ih1.2.2.trans ih2.2.2⟩
+
+theorem PartsEquiv.collection_perm {gs gs' : List Geom} (h : gs.Perm gs') :
+    PartsEquiv (parts (.collection gs)) (parts (.collection gs')) := by
+  obtain ⟨h1, h2, h3⟩ := partsList_perm h
+  have e : ∀ l, parts (.collection l) = ⟨(partsList l).pts, (partsList l).curves, (partsList l).areas⟩ := by
+    intro l; simp [parts]
+  rw [e, e]
+  exact PartsEquiv.perm h1 h2 h3
+
 end Geo.Proofs.Spec
